@@ -1,10 +1,14 @@
 import PyrollProofs.TreeLemmas
+import PyrollModel.TreeProg
 
 /-!
 # C13 — the unit tree stays consistent under every edit of a sequence
 
-Model: `PyrollModel/Tree.lean` (tied to `pyroll/core/unit/unit.py`, `pyroll/core/sequence/sequence.py` by the
-correspondence harness `driver/props/c13.py`).  Only property theorems live here; helper lemmas are in
+Model: `PyrollModel/Tree.lean`, tied to `pyroll/core/unit/unit.py`, `pyroll/core/sequence/sequence.py`, `pyroll/core/hooks.py`
+(T) by the programs which `driver/translate/c13_listops.py` reads out of the source on every run
+(`PyrollModel/Gen/C13.lean`, interpreter `PyrollModel/TreeProg.lean`): section "What the source says" below proves that
+running the generated program of every method equals the hand-written `step` / navigation / lookup function, and
+(K) by the correspondence harness `driver/props/c13.py`.  Only property theorems live here; helper lemmas are in
 `PyrollProofs/TreeLemmas.lean`.
 -/
 
@@ -318,5 +322,453 @@ def navExample : TState := run init [.newUnit 1 0, .newUnit 2 1, .newUnit 0 2, .
 example : prevOf navExample 3 1 = .unit 0 ∧ nextOf navExample 0 1 = .unit 3 ∧ prevOf navExample 0 0 = .indexError ∧
     nextOf navExample 1 2 = .indexError ∧ prevOf navExample 2 0 = .unit 1 ∧ prevOf navExample 4 0 = .valueError := by
   decide
+
+/-! ## What the source says (tie T)
+
+`Gen.C13` holds the statements of every method the property is about, as read from the current source.  The theorems of
+this section run those programs (`PyrollModel/TreeProg.lean`: what one instruction does, the primitives of a python
+`list` as modelled) and prove - for EVERY state and EVERY argument, by unfolding - that the result is what the
+hand-written model does.  So the invariant theorems above, which speak of `step`, `prev`, `prevOf`, `byLabel`, `ofKind`,
+are theorems about what the source says; a source change that alters a program either leaves these proofs intact
+(nothing observable changed) or makes this file stop building (broken tie).
+
+CONSUMED (general proof): `_SubUnitsList.__init__/append/extend/__iadd__/insert/pop (incl. default index)/clear/remove/
+copy/__setitem__/__delitem__`, `PassSequence.__init__/prepend/append/drop/flatten/units/roll_passes/transports/
+__getitem__`, `Unit.prev/next/prev_of/next_of`.
+PINNED (`decide`d equality with the expected statements): the class inventory (`list_api_as_modelled`),
+`Unit.parent` getter / setter, `Unit.subunits`, `PassSequence.__len__/__iter__`, `_SubUnitsList.__deepcopy__`,
+`HookHost.__deepcopy__` (`pinned_methods_as_modelled`): the model's `deepCopy` is a recursion over the whole tree, its
+agreement with the memo protocol of `copy.deepcopy` is left to the correspondence runs. -/
+
+section Source
+open Gen.C13
+set_option linter.unusedSimpArgs false
+
+/-- unfold one generated method completely -/
+macro "prog_simp" " [" ts:Lean.Parser.Tactic.simpLemma,* "]" : tactic =>
+  `(tactic| (simp [runMeth, runInit, runProg, exec, Env.guard, Env.get, Env.set, Env.items, Env.setItems, Env.par,
+      Env.keyOf, Env.iterate, finish, outOf, pyGetItem, pySetItem, pyDelItem, step, setParents_children,
+      setChildren_parent, $ts,*]) <;> rfl)
+
+/-! ### the mutators of `Unit._SubUnitsList` -/
+
+theorem append_program_refines_step (st : TState) (s u : Nat) (a : Src) :
+    let r := runMeth Gen.C13.append st { s := s, arg := .unit u, src := a }
+    (r.st, r.out, r.src) = ((step st (.append s u)).1, some (step st (.append s u)).2, a) := by
+  rfl
+
+theorem insert_program_refines_step (st : TState) (s : Nat) (i : Int) (u : Nat) (a : Src) :
+    let r := runMeth Gen.C13.insert st { s := s, key := some (.idx i), arg := .unit u, src := a }
+    (r.st, r.out, r.src) = ((step st (.insert s i u)).1, some (step st (.insert s i u)).2, a) := by
+  rfl
+
+/-- `extend` iterates its argument ONCE (`units = list(units)`), for every kind of iterable, spent or not -/
+theorem extend_program_refines_step (st : TState) (s : Nat) (a : Src) :
+    let r := runMeth Gen.C13.extend st { s := s, arg := .iter, src := a }
+    (r.st, r.out, r.src) =
+      ((step st (.extend s a.iterate.1)).1, some (step st (.extend s a.iterate.1)).2, a.iterate.2) := by
+  rfl
+
+/-- `+=` does what `extend` does and returns the list itself -/
+theorem iadd_program_refines_step (st : TState) (s : Nat) (a : Src) :
+    let r := runMeth Gen.C13.iadd st { s := s, arg := .iter, src := a }
+    (r.st, r.out, r.src) =
+      ((step st (.iadd s a.iterate.1)).1, some (step st (.iadd s a.iterate.1)).2, a.iterate.2) ∧ r.retSelf = true := by
+  exact ⟨rfl, rfl⟩
+
+theorem clear_program_refines_step (st : TState) (s : Nat) (a : Src) :
+    let r := runMeth Gen.C13.clear st { s := s, src := a }
+    (r.st, r.out, r.src) = ((step st (.clear s)).1, some (step st (.clear s)).2, a) := by
+  rfl
+
+theorem remove_program_refines_step (st : TState) (s u : Nat) (a : Src) :
+    let r := runMeth Gen.C13.remove st { s := s, arg := .unit u, src := a }
+    (r.st, r.out, r.src) = ((step st (.remove s u)).1, some (step st (.remove s u)).2, a) := by
+  by_cases h : u ∈ st.children s <;> prog_simp [Gen.C13.remove, Tree.remove, h]
+
+theorem pop_program_refines_step (st : TState) (s : Nat) (i : Int) (a : Src) :
+    let r := runMeth Gen.C13.pop st { s := s, key := some (.idx i), src := a }
+    (r.st, r.out, r.src) = ((step st (.pop s i)).1, some (step st (.pop s i)).2, a) := by
+  cases hn : normIdx (st.children s).length i with
+  | none => prog_simp [Gen.C13.pop, Tree.pop, hn]
+  | some k =>
+    have hk := normIdx_lt hn
+    have hg : (st.children s)[k]? = some (st.children s)[k] := List.getElem?_eq_getElem hk
+    have ht := take_one_drop _ _ hk
+    prog_simp [Gen.C13.pop, Tree.pop, hn, hg, ht]
+
+/-- `pop()` without an index is `pop(-1)` (the default of the index parameter is read from the signature) -/
+theorem pop_default_program_refines_step (st : TState) (s : Nat) (a : Src) :
+    let r := runMeth Gen.C13.pop st { s := s, src := a }
+    (r.st, r.out, r.src) = ((step st (.pop s (-1))).1, some (step st (.pop s (-1))).2, a) :=
+  pop_program_refines_step st s (-1) a
+
+theorem setitem_index_program_refines_step (st : TState) (s : Nat) (i : Int) (u : Nat) (a : Src) :
+    let r := runMeth Gen.C13.setitem st { s := s, key := some (.idx i), arg := .unit u, src := a }
+    (r.st, r.out, r.src) = ((step st (.setItem s i u)).1, some (step st (.setItem s i u)).2, a) := by
+  cases hn : normIdx (st.children s).length i with
+  | none => prog_simp [Gen.C13.setitem, Tree.setItem, hn]
+  | some k =>
+    have hk := normIdx_lt hn
+    have hg : (st.children s)[k]? = some (st.children s)[k] := List.getElem?_eq_getElem hk
+    have ht := take_one_drop _ _ hk
+    prog_simp [Gen.C13.setitem, Tree.setItem, hn, hg, ht]
+
+/-- `l[i:j:k] = iterable` for every step (`k = 1`: the plain slice; `k = 0`: ValueError before anything happens; a
+size mismatch of an extended slice: ValueError, nothing touched), the right-hand side iterated once -/
+theorem setitem_slice_program_refines_step (st : TState) (s : Nat) (i j : Option Int) (k : Int) (a : Src) :
+    let r := runMeth Gen.C13.setitem st { s := s, key := some (.slice i j k), arg := .iter, src := a }
+    (r.st, r.out, r.src) =
+      ((step st (.setSliceExt s i j k a.iterate.1)).1, some (step st (.setSliceExt s i j k a.iterate.1)).2,
+       a.iterate.2) := by
+  by_cases h0 : k = 0
+  · prog_simp [Gen.C13.setitem, Tree.setSliceExt, h0]
+  · by_cases h1 : k = 1
+    · prog_simp [Gen.C13.setitem, Tree.setSliceExt, Tree.setSlice, h0, h1]
+    · by_cases hs : a.iterate.1.length = (slicePositions (st.children s).length i j k).length
+      · prog_simp [Gen.C13.setitem, Tree.setSliceExt, h0, h1, hs]
+      · prog_simp [Gen.C13.setitem, Tree.setSliceExt, h0, h1, hs]
+
+theorem delitem_index_program_refines_step (st : TState) (s : Nat) (i : Int) (a : Src) :
+    let r := runMeth Gen.C13.delitem st { s := s, key := some (.idx i), src := a }
+    (r.st, r.out, r.src) = ((step st (.delItem s i)).1, some (step st (.delItem s i)).2, a) := by
+  cases hn : normIdx (st.children s).length i with
+  | none => prog_simp [Gen.C13.delitem, Tree.delItem, hn]
+  | some k =>
+    have hk := normIdx_lt hn
+    have hg : (st.children s)[k]? = some (st.children s)[k] := List.getElem?_eq_getElem hk
+    have ht := take_one_drop _ _ hk
+    prog_simp [Gen.C13.delitem, Tree.delItem, hn, hg, ht]
+
+theorem delitem_slice_program_refines_step (st : TState) (s : Nat) (i j : Option Int) (k : Int) (a : Src) :
+    let r := runMeth Gen.C13.delitem st { s := s, key := some (.slice i j k), src := a }
+    (r.st, r.out, r.src) = ((step st (.delSliceExt s i j k)).1, some (step st (.delSliceExt s i j k)).2, a) := by
+  by_cases h0 : k = 0
+  · prog_simp [Gen.C13.delitem, Tree.delSliceExt, h0]
+  · by_cases h1 : k = 1
+    · prog_simp [Gen.C13.delitem, Tree.delSliceExt, Tree.delSlice, h0, h1]
+    · prog_simp [Gen.C13.delitem, Tree.delSliceExt, h0, h1]
+
+/-- `l.copy()` builds a NEW list object with the same items and the same owner, which re-adopts every item -/
+theorem copy_program_refines_step (st : TState) (s : Nat) (a : Src) :
+    let r := runMeth Gen.C13.copy st { s := s, src := a }
+    (r.st, r.out, r.src) = ((step st (.listCopy s)).1, some (step st (.listCopy s)).2, a) ∧
+      r.det = some (st.children s) ∧ r.retSelf = true := by
+  exact ⟨rfl, rfl, rfl⟩
+
+/-- `_SubUnitsList(owner, units)`: the items of ONE iteration of `units`, each naming `owner` -/
+theorem init_program_refines (st : TState) (s : Nat) (a : Src) :
+    let r := runInit Gen.C13.init st { s := s, arg := .iter, src := a }
+    (r.st, r.out, r.det, r.src) = (setParents st a.iterate.1 (some s), some .ok, some a.iterate.1, a.iterate.2) := by
+  rfl
+
+/-! ### `PassSequence` -/
+
+theorem construct_program_refines_step (st : TState) (label : Nat) (a : Src) :
+    runSeqInit Gen.C13.seq_init Gen.C13.init st label a = some (construct st a.iterate.1 label, a.iterate.2) := by
+  rfl
+
+theorem seq_append_program_refines_step (st : TState) (s u : Nat) (a : Src) :
+    let r := runMeth Gen.C13.seq_append st { s := s, arg := .unit u, src := a }
+    (r.st, r.out, r.src) = ((step st (.append s u)).1, some (step st (.append s u)).2, a) := by
+  rfl
+
+theorem seq_prepend_program_refines_step (st : TState) (s u : Nat) (a : Src) :
+    let r := runMeth Gen.C13.seq_prepend st { s := s, arg := .unit u, src := a }
+    (r.st, r.out, r.src) = ((step st (.prepend s u)).1, some (step st (.prepend s u)).2, a) := by
+  rfl
+
+theorem seq_drop_program_refines_step (st : TState) (s : Nat) (i : Int) (a : Src) :
+    let r := runMeth Gen.C13.seq_drop st { s := s, key := some (.idx i), src := a }
+    (r.st, r.out, r.src) = ((step st (.drop s i)).1, some (step st (.drop s i)).2, a) := by
+  cases hn : normIdx (st.children s).length i with
+  | none => prog_simp [Gen.C13.seq_drop, Tree.delItem, hn]
+  | some k =>
+    have hk := normIdx_lt hn
+    have hg : (st.children s)[k]? = some (st.children s)[k] := List.getElem?_eq_getElem hk
+    have ht := take_one_drop _ _ hk
+    prog_simp [Gen.C13.seq_drop, Tree.delItem, hn, hg, ht]
+
+theorem flattenAux_program_refines (st : TState) (items acc : List Nat) :
+    runFlattenAux Gen.C13.flatten Gen.C13.clear 3 st items acc = some (flattenAux st items acc) := by
+  have clear_run : ∀ (st : TState) (s : Nat), runMeth Gen.C13.clear st { s := s } =
+      { st := Tree.clear st s, out := some .ok, src := Src.fresh [] false, retSelf := false, det := none } :=
+    fun _ _ => rfl
+  induction items generalizing st acc with
+  | nil => rfl
+  | cons item rest ih =>
+    by_cases hk : st.kind item = 3
+    · simp only [runFlattenAux, hk, if_true, Gen.C13.flatten, runF, clear_run, flattenAux]
+      exact ih _ _
+    · simp only [runFlattenAux, hk, if_false, Gen.C13.flatten, runF, flattenAux]
+      exact ih _ _
+
+/-- `flatten`: nested sequences are replaced by their units (read BEFORE the inner list is cleared), emptied and
+orphaned; the new list is installed as a `_SubUnitsList`, which adopts its items -/
+theorem flatten_program_refines_step (st : TState) (s : Nat) :
+    runFlatten Gen.C13.flatten Gen.C13.clear Gen.C13.init st s = some (step st (.flatten s)).1 := by
+  simp only [runFlatten, Gen.C13.flatten, kindOfClass]
+  have := flattenAux_program_refines st (st.children s) []
+  simp only [Gen.C13.flatten] at this
+  rw [this]
+  rfl
+
+/-- `units`, `roll_passes`, `transports`: a new list on every call, filtered by type, in list order, nothing cached -/
+theorem views_program_refines (st : TState) (s : Nat) :
+    runQuery Gen.C13.units st s = some (st.children s) ∧
+    runQuery Gen.C13.roll_passes st s = some (ofKind st s 1) ∧
+    runQuery Gen.C13.transports st s = some (ofKind st s 2) := by
+  simp [runQuery, Gen.C13.units, Gen.C13.roll_passes, Gen.C13.transports, kindOfClass, ofKind]
+
+/-- `seq["label"]`: the FIRST listed unit carrying the label, KeyError when there is none -/
+theorem getitem_label_program_refines (st : TState) (s lab : Nat) :
+    runGetLabel Gen.C13.getitem st s lab = some (byLabel st s lab) := by
+  simp [runGetLabel, Gen.C13.getitem, byLabel]
+
+theorem getitem_index_program_refines (st : TState) (s : Nat) (i : Int) :
+    runGetKey Gen.C13.getitem st s (.idx i) =
+      some (match byIndex st s i with | some u => .ok (.unit u) | none => .error .indexError) := by
+  simp only [runGetKey, Gen.C13.getitem, pyGetItem, byIndex]
+  cases hn : normIdx (st.children s).length i with
+  | none => simp
+  | some k =>
+    have hk := normIdx_lt hn
+    simp [List.getElem?_eq_getElem hk]
+
+theorem getitem_slice_program_refines (st : TState) (s : Nat) (i j : Option Int) :
+    runGetKey Gen.C13.getitem st s (.slice i j 1) = some (.ok (.list (bySlice st s i j))) := by
+  simp [runGetKey, Gen.C13.getitem, pyGetItem, bySlice]
+
+/-! ### navigation -/
+
+theorem prev_program_refines (st : TState) (u : Nat) : runNav Gen.C13.prev st u none = some (prev st u) := by
+  simp only [Gen.C13.prev, runNav, prev, navExc]
+  cases hp : st.parent u with
+  | none => rfl
+  | some p =>
+    simp only []
+    by_cases hm : u ∈ st.children p
+    · simp only [hm, if_true, evalI]
+      have hlt := List.idxOf_lt_length_of_mem hm
+      by_cases h0 : List.idxOf u (st.children p) = 0
+      · simp [h0]
+      · have hne : ¬ ((List.idxOf u (st.children p) : Int) + 0 = 0) := by omega
+        have hn : normIdx (st.children p).length ((List.idxOf u (st.children p) : Int) + -1)
+            = some (List.idxOf u (st.children p) - 1) := by
+          simp only [normIdx]
+          have h1 : (0 : Int) ≤ (List.idxOf u (st.children p) : Int) + -1 := by omega
+          have h2 : (List.idxOf u (st.children p) : Int) + -1 < ((st.children p).length : Int) := by omega
+          simp only [h1, h2, if_true]
+          congr 1
+          omega
+        simp only [hne, if_false, h0, hn]
+        cases (st.children p)[List.idxOf u (st.children p) - 1]? <;> rfl
+    · simp [hm]
+
+theorem next_program_refines (st : TState) (u : Nat) : runNav Gen.C13.next st u none = some (next st u) := by
+  simp only [Gen.C13.next, runNav, next, navExc]
+  cases hp : st.parent u with
+  | none => rfl
+  | some p =>
+    simp only []
+    by_cases hm : u ∈ st.children p
+    · simp only [hm, if_true, evalI]
+      have hlt := List.idxOf_lt_length_of_mem hm
+      by_cases hl : List.idxOf u (st.children p) + 1 = (st.children p).length
+      · have he : ((List.idxOf u (st.children p) : Int) + 0 = ((st.children p).length : Int) + -1) := by omega
+        have hnone : (st.children p)[List.idxOf u (st.children p) + 1]? = none := by
+          apply List.getElem?_eq_none; omega
+        simp [he, hnone]
+      · have hne : ¬ ((List.idxOf u (st.children p) : Int) + 0 = ((st.children p).length : Int) + -1) := by omega
+        have hn : normIdx (st.children p).length ((List.idxOf u (st.children p) : Int) + 1)
+            = some (List.idxOf u (st.children p) + 1) := by
+          simp only [normIdx]
+          have h1 : (0 : Int) ≤ (List.idxOf u (st.children p) : Int) + 1 := by omega
+          have h2 : (List.idxOf u (st.children p) : Int) + 1 < ((st.children p).length : Int) := by omega
+          simp only [h1, h2, if_true]
+          congr 1
+        simp only [hne, if_false, hn]
+        cases (st.children p)[List.idxOf u (st.children p) + 1]? <;> rfl
+    · simp [hm]
+
+theorem navLoop_prev (fuel : Nat) : ∀ (st : TState) (v q : Nat),
+    navLoop prev fuel st v q = if isKind st q v then .unit v else prevOfAux fuel st v q := by
+  induction fuel with
+  | zero => intro st v q; simp [navLoop, prevOfAux]
+  | succ f ih =>
+    intro st v q
+    simp only [navLoop, prevOfAux]
+    cases hp : prev st v with
+    | unit w => simp only [ih]
+    | _ => rfl
+
+theorem navLoop_next (fuel : Nat) : ∀ (st : TState) (v q : Nat),
+    navLoop next fuel st v q = if isKind st q v then .unit v else nextOfAux fuel st v q := by
+  induction fuel with
+  | zero => intro st v q; simp [navLoop, nextOfAux]
+  | succ f ih =>
+    intro st v q
+    simp only [navLoop, nextOfAux]
+    cases hp : next st v with
+    | unit w => simp only [ih]
+    | _ => rfl
+
+/-- `prev_of(t)`: starts at `self.prev` (never at the unit itself), tests with `isinstance`, advances by `.prev` -/
+theorem prev_of_program_refines (st : TState) (u q : Nat) :
+    runNavOf Gen.C13.prev_of (st.n + 1) st u q = some (prevOf st u q) := by
+  simp only [runNavOf, Gen.C13.prev_of, navProp, prevOf, prevOfAux, decide_true]
+  cases hp : prev st u with
+  | unit w => simp only [navLoop_prev]
+  | _ => rfl
+
+theorem next_of_program_refines (st : TState) (u q : Nat) :
+    runNavOf Gen.C13.next_of (st.n + 1) st u q = some (nextOf st u q) := by
+  simp only [runNavOf, Gen.C13.next_of, navProp, nextOf, nextOfAux, decide_true]
+  cases hp : next st u with
+  | unit w => simp only [navLoop_next]
+  | _ => rfl
+
+/-! ### every operation at once -/
+
+/-- one operation as the SOURCE performs it: the generated program of the method the harness calls for that `Op`
+(`append/prepend/drop/flatten/construct`: the `PassSequence` method; the others: the `_SubUnitsList` method), with the
+iterable argument `a` handed over as it is.  `newUnit` (construction of a unit without sub-units) and `deepCopy`
+(pinned, see `pinned_methods_as_modelled`) are the model's own. -/
+def runOpSrc (st : TState) (op : Op) (a : Src) : Option ((TState × Out) × Src) :=
+  let pack (r : Res) : Option ((TState × Out) × Src) := r.out.map fun o => ((r.st, o), r.src)
+  match op with
+  | .newUnit _ _ => some (step st op, a)
+  | .deepCopy _ => some (step st op, a)
+  | .construct _ l => (runSeqInit Gen.C13.seq_init Gen.C13.init st l a).map fun r => ((r.1.1, .unit r.1.2), r.2)
+  | .append s u => pack (runMeth Gen.C13.seq_append st { s := s, arg := .unit u, src := a })
+  | .prepend s u => pack (runMeth Gen.C13.seq_prepend st { s := s, arg := .unit u, src := a })
+  | .insert s i u => pack (runMeth Gen.C13.insert st { s := s, key := some (.idx i), arg := .unit u, src := a })
+  | .extend s _ => pack (runMeth Gen.C13.extend st { s := s, arg := .iter, src := a })
+  | .iadd s _ => pack (runMeth Gen.C13.iadd st { s := s, arg := .iter, src := a })
+  | .setItem s i u => pack (runMeth Gen.C13.setitem st { s := s, key := some (.idx i), arg := .unit u, src := a })
+  | .setSlice s i j _ => pack (runMeth Gen.C13.setitem st { s := s, key := some (.slice i j 1), arg := .iter, src := a })
+  | .setSliceExt s i j k _ =>
+    pack (runMeth Gen.C13.setitem st { s := s, key := some (.slice i j k), arg := .iter, src := a })
+  | .delItem s i => pack (runMeth Gen.C13.delitem st { s := s, key := some (.idx i), src := a })
+  | .delSlice s i j => pack (runMeth Gen.C13.delitem st { s := s, key := some (.slice i j 1), src := a })
+  | .delSliceExt s i j k => pack (runMeth Gen.C13.delitem st { s := s, key := some (.slice i j k), src := a })
+  | .pop s i => pack (runMeth Gen.C13.pop st { s := s, key := some (.idx i), src := a })
+  | .remove s u => pack (runMeth Gen.C13.remove st { s := s, arg := .unit u, src := a })
+  | .clear s => pack (runMeth Gen.C13.clear st { s := s, src := a })
+  | .drop s i => pack (runMeth Gen.C13.seq_drop st { s := s, key := some (.idx i), src := a })
+  | .flatten s => (runFlatten Gen.C13.flatten Gen.C13.clear Gen.C13.init st s).map fun st' => ((st', .ok), a)
+  | .listCopy s => pack (runMeth Gen.C13.copy st { s := s, src := a })
+
+
+theorem pack_eq (r : Res) (st' : TState) (o : Out) (src : Src) (h : (r.st, r.out, r.src) = (st', some o, src)) :
+    (r.out.map fun o => ((r.st, o), r.src)) = some ((st', o), src) := by
+  simp only [Prod.mk.injEq] at h
+  simp [h.1, h.2.1, h.2.2]
+
+/-- **op_program_refines_step** - for EVERY operation, every state and every argument (handed over as any iterable,
+spent or not): running the program read from the source is one iteration of the argument followed by the
+hand-written `step` on the resulting list; an operation without an iterable argument leaves `a` alone. -/
+theorem op_program_refines_step (st : TState) (op : Op) (a : Src) :
+    runOpSrc st op a =
+      some (step st (op.withArg a.iterate.1), if op.arg?.isSome then a.iterate.2 else a) := by
+  cases op with
+  | newUnit k l => rfl
+  | deepCopy u => rfl
+  | construct us l =>
+    simp only [runOpSrc, construct_program_refines_step, Option.map, Op.withArg, Op.arg?, step]
+    rfl
+  | append s u => exact pack_eq _ _ _ _ (seq_append_program_refines_step st s u a)
+  | prepend s u => exact pack_eq _ _ _ _ (seq_prepend_program_refines_step st s u a)
+  | insert s i u => exact pack_eq _ _ _ _ (insert_program_refines_step st s i u a)
+  | extend s us => exact pack_eq _ _ _ _ (extend_program_refines_step st s a)
+  | iadd s us => exact pack_eq _ _ _ _ (iadd_program_refines_step st s a).1
+  | setItem s i u => exact pack_eq _ _ _ _ (setitem_index_program_refines_step st s i u a)
+  | setSlice s i j us =>
+    have h := setitem_slice_program_refines_step st s i j 1 a
+    simp only [step, setSliceExt] at h
+    exact pack_eq _ _ _ _ h
+  | setSliceExt s i j k us => exact pack_eq _ _ _ _ (setitem_slice_program_refines_step st s i j k a)
+  | delItem s i => exact pack_eq _ _ _ _ (delitem_index_program_refines_step st s i a)
+  | delSlice s i j =>
+    have h := delitem_slice_program_refines_step st s i j 1 a
+    simp only [step, delSliceExt] at h
+    exact pack_eq _ _ _ _ h
+  | delSliceExt s i j k => exact pack_eq _ _ _ _ (delitem_slice_program_refines_step st s i j k a)
+  | pop s i => exact pack_eq _ _ _ _ (pop_program_refines_step st s i a)
+  | remove s u => exact pack_eq _ _ _ _ (remove_program_refines_step st s u a)
+  | clear s => exact pack_eq _ _ _ _ (clear_program_refines_step st s a)
+  | drop s i => exact pack_eq _ _ _ _ (seq_drop_program_refines_step st s i a)
+  | flatten s =>
+    simp only [runOpSrc, flatten_program_refines_step, Option.map, Op.withArg, Op.arg?, step]
+    rfl
+  | listCopy s => exact pack_eq _ _ _ _ (copy_program_refines_step st s a).1
+
+/-- with an argument that has not been iterated yet this is `stepSrc`, i.e. (by `stepSrc_form_independent`) `step` on
+the items of the argument, whatever its form -/
+theorem op_program_refines_step_list (st : TState) (op : Op) (a : Src) (hs : a.spent = false) :
+    (runOpSrc st op a).map Prod.fst = some (step st (op.withArg a.items)) := by
+  rw [op_program_refines_step]
+  simp [Src.iterate, hs]
+
+/-- hence what the SOURCE does preserves the invariant: the theorems about `step` transfer to the programs -/
+theorem inv_step_source (st : TState) (op : Op) (a : Src) (h : Inv st) (hs : a.spent = false)
+    (hv : Valid st (op.withArg a.items)) :
+    ∃ r, runOpSrc st op a = some r ∧ r.1 = step st (op.withArg a.items) ∧ Inv r.1.1 := by
+  refine ⟨_, op_program_refines_step st op a, ?_, ?_⟩
+  · simp [Src.iterate, hs]
+  · have : a.iterate.1 = a.items := by simp [Src.iterate, hs]
+    simp only [this]
+    exact inv_step st _ h hv
+
+/-- non-vacuity: `l[::-1] = (generator over [a, b, c])`, run from the source's `__setitem__` -/
+example : ((runOpSrc navExampleBase (.setSliceExt 4 none none (-1) []) (Src.fresh [0, 1, 2] true)).map
+    fun r => (r.1.1.children 4, r.1.2, r.2.spent)) = some ([2, 1, 0], .ok, true) := by
+  rw [op_program_refines_step]
+  simp [navExampleBase, Op.withArg, Op.arg?, Src.fresh, Src.iterate,
+    run, step, construct, alloc, setParents, setChildren, setSliceExt, slicePositions, extBounds, extPos, itemsAt,
+    replaceAt, List.idxOf_cons, init]
+
+/-! ### pinned: what is compared with the expected statements only -/
+
+/-- the class inventory the model assumes: `_SubUnitsList` derives from `list` only; it overrides exactly these methods
+of the list API; the mutating methods it inherits unchanged are `*=`, `reverse`, `sort` (they touch no parent - not part
+of the property's operations, see notes); `PassSequence` defines no further list-like method; every modelled method is
+defined in the class (none fell back to the inherited `list` method) -/
+theorem list_api_as_modelled :
+    listBases = ["list"] ∧
+    overriddenListApi = ["__delitem__", "__iadd__", "__init__", "__setitem__", "append", "clear", "copy", "extend",
+      "insert", "pop", "remove"] ∧
+    inheritedMutators = ["__imul__", "reverse", "sort"] ∧
+    seqListApi = [] ∧
+    [Gen.C13.init, Gen.C13.append, Gen.C13.extend, Gen.C13.iadd, Gen.C13.insert, Gen.C13.pop, Gen.C13.clear,
+      Gen.C13.remove, Gen.C13.copy, Gen.C13.setitem, Gen.C13.delitem, Gen.C13.seq_prepend, Gen.C13.seq_append,
+      Gen.C13.seq_drop].all (·.defined) = true := by
+  decide
+
+/-- the statements of the methods that are not run but compared: the parent slot is a weak reference or `None` and the
+getter dereferences it; `subunits` hands out the list object itself; `len` / iteration are those of the unit list;
+a deep copy of a unit list copies its owner through the memo (never keeps the original owner) and appends deep copies of
+the items through the overridden `append`; `HookHost.__deepcopy__` registers the copy in the memo first, keeps dead weak
+references, redirects weak references to the memo copy of their target, otherwise to a deep copy of the target (which
+nothing else holds: the copy of a unit inside a sequence names no parent), and deep-copies everything else -/
+theorem pinned_methods_as_modelled :
+    parentGet = ["(self)", "if self._parent is None:", "    return None", "return self._parent()"] ∧
+    parentSet = ["(self, value)", "if value is None:", "    self._parent = None", "else:",
+      "    self._parent = weakref.ref(value)"] ∧
+    subunitsGet = ["(self)", "return self._subunits"] ∧
+    Gen.C13.len = ("_subunits", "__len__") ∧ Gen.C13.iter = ("_subunits", "__iter__") ∧
+    listDeepcopy = ["(self, memo)", "v0 = self.__class__", "v1 = v0.__new__(v0)", "v2 = self._owner()",
+      "if id(v2) in memo:", "    v1._owner = weakref.ref(memo[id(v2)])", "else:",
+      "    v1._owner = weakref.ref(copy.deepcopy(v2, memo))", "for v3 in self:",
+      "    v1.append(copy.deepcopy(v3, memo))", "return v1"] ∧
+    hostDeepcopy = ["(self, memo)", "v0 = self.__class__", "v1 = v0.__new__(v0)", "memo[id(self)] = v1",
+      "for v2, v3 in self.__dict__.items():", "    if isinstance(v3, weakref.ref):", "        v4 = v3()",
+      "        if v4 is None:", "            v5 = v3", "        elif id(v4) in memo:",
+      "            v5 = weakref.ref(memo[id(v4)])", "        else:", "            v6 = copy.deepcopy(v4, memo)",
+      "            v5 = weakref.ref(v6)", "    else:", "        v5 = copy.deepcopy(v3, memo)",
+      "    setattr(v1, v2, v5)", "return v1"] := by
+  decide
+
+end Source
 
 end Tree
